@@ -177,6 +177,9 @@ func checkAllocators(c *Ctx, rule string) {
 		}
 	}
 	R.Floor(rule+":atomic-globals", natomic, 2)
+	if rule != "R11.2" {
+		return // the block arithmetic below is an isolation clause (C11), not a race-freedom clause (C14 R14.3)
+	}
 	// AllocPacketID shape
 	f := c.P.Func("packets.AllocPacketID")
 	if f == nil {
@@ -186,8 +189,8 @@ func checkAllocators(c *Ctx, rule string) {
 		for _, rp := range rps {
 			r := rp.Results[0].StripConv()
 			ok := r.Op == "binop" && r.Name == "-" && r.Args[0].Op == "call" && strings.HasSuffix(r.Args[0].Name, ".Add") &&
-				len(r.Args[0].Args) == 2 && r.Args[0].Args[1].Key() == r.Args[1].Key() && strings.Contains(r.Args[1].String(), "param:maxTTL")
-			R.Check(ok, rule, "packets.AllocPacketID#range-start", rp.Ret.Pos(), core.FuncName(f), "returns Add(n)-n with n = widened maxTTL: consecutive half-open blocks of one counter", "result "+rp.Results[0].String()+" is not Add(n)-n with n the widened maxTTL")
+				len(r.Args[0].Args) == 2 && r.Args[0].Args[1].Key() == r.Args[1].Key() && len(f.Params) == 1 && r.Args[1].StripConv().Op == "param" && r.Args[1].StripConv().Name == f.Params[0].Name() && !r.Args[1].Narrowing()
+			R.Check(ok, rule, "packets.AllocPacketID#range-start", rp.Ret.Pos(), core.FuncName(f), "returns Add(n)-n with n = the widened size parameter: consecutive half-open blocks of one counter", "result "+rp.Results[0].String()+" is not Add(n)-n with n the widened size parameter")
 		}
 	}
 	// the echo id handed out is the counter value itself: no post-processing that could map two counter values to one id
@@ -260,6 +263,12 @@ func checkAllocators(c *Ctx, rule string) {
 // allowedGlobalWrites is the reviewed table of R11.3.
 var allowedGlobalWrites = map[string]string{}
 
+// sharedGlobals: reviewed package-level state that run-path code reaches by reference (one reason each).
+var sharedGlobals = map[string]string{
+	"icmp.curEchoID":      "the echo-id allocator: an atomic counter whose only use is one Add per allocation (decided by R11.2)",
+	"packets.curPacketID": "the IP-ID block allocator: an atomic counter whose only use is one Add per allocation (decided by R11.2)",
+}
+
 // checkGlobals: no non-atomic package-level variable is written on the run path.
 func checkGlobals(c *Ctx) {
 	R := c.R
@@ -300,6 +309,72 @@ func checkGlobals(c *Ctx) {
 			}
 		}
 	}
+	// every other USE of a module package-level variable on the run path: a plain load of a value that nothing on the run path
+	// writes is a constant by the rule above; anything whose address is handed on (method calls on the variable, pools, maps,
+	// caches) is state that concurrent runs share and must be in the reviewed table
+	type guse struct {
+		name string
+		typ  string
+		fn   *ssa.Function
+		in   ssa.Instruction
+	}
+	seenUse := map[string]bool{}
+	var uses []guse
+	for _, f := range fs {
+		if f.Name() == "init" {
+			continue
+		}
+		for _, b := range f.Blocks {
+			for _, in := range b.Instrs {
+				// (A) the variable's address is an operand of a call (method with pointer receiver, pool, once, map helpers)
+				// (B) a pointer / map / channel / interface loaded from it is an operand of a call
+				ci, isCall := in.(ssa.CallInstruction)
+				if !isCall {
+					continue
+				}
+				var ops []ssa.Value
+				ops = append(ops, ci.Common().Args...)
+				if ci.Common().IsInvoke() {
+					ops = append(ops, ci.Common().Value)
+				}
+				for _, op := range ops {
+					var g *ssa.Global
+					switch x := op.(type) {
+					case *ssa.Global:
+						g = x
+					case *ssa.FieldAddr:
+						g, _ = x.X.(*ssa.Global)
+					case *ssa.UnOp:
+						if gg, ok := x.X.(*ssa.Global); ok {
+							switch x.Type().Underlying().(type) {
+							case *types.Pointer, *types.Map, *types.Chan, *types.Interface:
+								g = gg
+							}
+						}
+					}
+					if g == nil || g.Pkg == nil || !strings.HasPrefix(g.Pkg.Pkg.Path(), core.ModulePath) {
+						continue
+					}
+					name := g.Pkg.Pkg.Name() + "." + g.Name()
+					if seenUse[name] {
+						continue
+					}
+					seenUse[name] = true
+					uses = append(uses, guse{name, g.Type().(*types.Pointer).Elem().String(), f, in})
+				}
+			}
+		}
+	}
+	sort.Slice(uses, func(i, j int) bool { return uses[i].name < uses[j].name })
+	for _, u := range uses {
+		key := "run-path#shared-global[" + u.name + "]"
+		if why, ok := sharedGlobals[u.name]; ok {
+			R.OK("R11.3", key, u.in.Pos(), core.FuncName(u.fn), "reviewed: "+why)
+		} else {
+			R.Fail("R11.3", key, u.in.Pos(), core.FuncName(u.fn), "package-level variable "+u.name+" ("+u.typ+") is reference-typed or used through its address on the run path and is not in the reviewed table: concurrent runs share whatever it holds")
+		}
+	}
+	R.Floor("R11.3:shared-globals-reviewed", len(uses), 2)
 	// positive control: the same query over ALL module functions must find the known setters
 	ctl := 0
 	for _, f := range c.P.ModFuncs {
